@@ -1,5 +1,6 @@
 import OapiVerif.Model.JsonObj
 import OapiVerif.Proofs.GoJson
+import OapiVerif.Proofs.GoJsonInv
 /-!
 C07 — Generated models round-trip JSON without loss.
 
@@ -265,6 +266,17 @@ the generated models and recorded in known-findings.txt). Every other slice type
 theorem C07_byte_slice_outside_fragment :
     wf (.slice uint8) = false ∧ wf (.slice uint16) = true ∧ wf (.slice int8) = true ∧ wf (.slice (.slice uint8)) = false := by
   decide
+
+/-- "Nothing is invented": what a valid instance decodes to is a value of the generated type and a stable one — the
+value the encoder turns back into the instance (`C07_json_roundtrip`) and that survives a further Marshal/Unmarshal
+(`C13_json_body_decodes_to_value`); the two directions are inverse to each other on valid instances. -/
+theorem C07_decoded_value_is_typed_and_stable (t : GoTy) (j : JVal) (v : GoVal) (hw : wf t = true) (hv : valid t j = true)
+    (hd : decode t j = some v) : hasTy t v = true ∧ stable t v = true ∧ encode t v = some j := by
+  obtain ⟨h1, h2⟩ := decode_typed_stable t j v hw hv hd
+  obtain ⟨v', hd', he'⟩ := roundtrip t j hw hv
+  rw [hd] at hd'
+  cases hd'
+  exact ⟨h1, h2, he'⟩
 
 /-- The validity predicate is met by the extremes of every width (non-vacuity of `C07_json_roundtrip` on integers). -/
 example : valid uint64 (.num 18446744073709551615) = true ∧ valid int64 (.num (-9223372036854775808)) = true ∧
